@@ -30,6 +30,8 @@ package metric
 //@ modifies nothing
 
 //@ func (*metricCollector).Collect$1
+//@ freevars ch s
+//@ params vbID observer
 //@ props C16
 //@ requires s != nil && observer != nil && ch != nil
 //@ let M = "prometheus.MustNewConstMetric"
@@ -42,6 +44,8 @@ package metric
 //@ modifies chan(ch), calls("prometheus.MustNewConstMetric"), calls(couchbase.Observer.GetPersistSeqNo), calls(couchbase.Observer.GetMetrics)
 
 //@ func (*metricCollector).Collect$2
+//@ freevars ch s err seqNoMap totalLag
+//@ params vbID offset
 //@ props C16
 //@ requires s != nil && offset != nil && offset.SnapshotMarker != nil && ch != nil && (err == nil ==> seqNoMap != nil)
 //@ let high = ite(has(seqNoMap, vbID), seqNoMap[vbID], 0)
@@ -54,6 +58,7 @@ package metric
 //@ modifies chan(ch), calls("prometheus.MustNewConstMetric"), calls("prometheus.NewInvalidMetric"), cell(fvcell("totalLag"))
 
 //@ func (*metricCollector).Collect
+//@ params s ch
 //@ props C16
 //@ requires s != nil && s.stream != nil && typeis(s.stream, "*stream.stream") && s.client != nil && s.vBucketDiscovery != nil && ch != nil
 //@ requires distinct(s.mutation, s.deletion, s.expiration, s.agentQueueCurrent, s.agentQueueMax, s.currentSeqNo, s.startSeqNo, s.endSeqNo, s.persistSeqNo, s.processLatency, s.dcpLatency, s.rebalance, s.lag, s.totalLag, s.activeStream, s.totalMembers, s.memberNumber, s.membershipType, s.vBucketCount, s.vBucketRangeStart, s.vBucketRangeEnd, s.offsetWrite, s.offsetWriteLatency)
